@@ -453,7 +453,7 @@ theorem resourcesJson_ok {v : View} {j : Json} (h : v.resourcesJson = .ok j) :
 /-! ### the document: each field of a returned serialization is the field function's answer -/
 
 theorem serializePe_ok {v : View} {j : PeJson} (h : v.serializePe = .ok j) :
-    j.headers = v.headerJson ∧ v.richJson = .ok j.richStructure ∧ v.exportsJson = .ok j.exports ∧
+    (j.headers = v.headerJson ∧ j.headersDoc = v.headersJson) ∧ v.richJson = .ok j.richStructure ∧ v.exportsJson = .ok j.exports ∧
     v.importsJson = .ok j.imports ∧ v.baseRelocsJson = .ok j.baseRelocs ∧ v.debugJson = .ok j.debug ∧
     v.tlsJson = .ok j.tls ∧ v.loadConfigJson = .ok j.loadConfig ∧ v.securityJson = .ok j.security ∧
     v.resourcesJson = .ok j.resources := by
@@ -468,7 +468,7 @@ theorem serializePe_ok {v : View} {j : PeJson} (h : v.serializePe = .ok j) :
   obtain ⟨a8, h8, h⟩ := Out.bind_eq_ok h
   obtain ⟨a9, h9, h⟩ := Out.bind_eq_ok h
   cases h
-  exact ⟨rfl, h1, h2, h3, h4, h5, h6, h7, h8, h9⟩
+  exact ⟨⟨rfl, rfl⟩, h1, h2, h3, h4, h5, h6, h7, h8, h9⟩
 
 theorem serializePe_of_fields {v : View} {a1 a2 a3 a4 a5 a6 a7 a8 a9}
     (h1 : v.richJson = .ok a1) (h2 : v.exportsJson = .ok a2) (h3 : v.importsJson = .ok a3)
@@ -481,16 +481,6 @@ theorem serializePe_of_fields {v : View} {a1 a2 a3 a4 a5 a6 a7 a8 a9}
   exact ⟨_, rfl⟩
 
 /-! ## part 2: the serializer returns (no panic, no unchecked access, no hang) -/
-
-theorem exists_ok_of_opt {α β} (o : Option α) (f : α → Out β) (h : ∀ a, o = some a → ∃ b, f a = .ok b) :
-    ∃ r, (match o with
-      | none => (Out.ok none : Out (Option β))
-      | some a => f a >>= fun j => .ok (some j)) = .ok r := by
-  cases o with
-  | none => exact ⟨_, rfl⟩
-  | some a =>
-    obtain ⟨b, hb⟩ := h a rfl
-    exact ⟨some b, by show (f a >>= fun j => Out.ok (some j)) = _; rw [hb]; rfl⟩
 
 /-! ### exports: every view -/
 
@@ -513,7 +503,12 @@ theorem exportsJson_total (v : View) : ∃ o, v.exportsJson = .ok o := by
     show ∃ o, serializeExports e = .ok o
     unfold serializeExports
     rw [Out.okOpt_of_ok_or_err (Exports.by_okOrErr e), Out.bind_ok]
-    exact exists_ok_of_opt _ _ (fun y _ => serializeBy_total y)
+    cases e.by.toOption with
+    | none => exact ⟨_, rfl⟩
+    | some y =>
+      obtain ⟨j, hj⟩ := serializeBy_total y
+      show ∃ o, (serializeBy y >>= fun j => Out.ok (some j)) = Out.ok o
+      rw [hj]; exact ⟨_, rfl⟩
 
 /-! ### imports: buffers below 4 GiB (the `rva + 2` of `import_from_va`) -/
 
@@ -530,29 +525,35 @@ theorem serializeDesc_total (v : View) (hsz : v.img.bytes.size < 4294967296) (d 
     · rw [he]; exact .inr ⟨_, rfl⟩
   unfold serializeDesc
   rw [Out.okOpt_of_ok_or_err hdll, Out.bind_ok, Out.okOpt_of_ok_or_err hint, Out.bind_ok]
-  have : ∃ r, (match (Imports.int v d).toOption with
-      | none => (Out.ok none : Out (Option (List ImportJson)))
-      | some items => intItems v.b items >>= fun l => .ok (some l)) = .ok r := by
-    apply exists_ok_of_opt
-    intro items hitems
+  cases hitems : (Imports.int v d).toOption with
+  | none => exact ⟨_, rfl⟩
+  | some items =>
     have hi := Out.toOption_eq_some.1 hitems
     unfold Imports.int at hi
     obtain ⟨s, _, hi⟩ := Out.bind_eq_ok hi
     cases hi
-    apply intItems_total
-    intro it hit
-    obtain ⟨t, _, rfl⟩ := List.mem_map.1 hit
-    rw [Imports.import_eq_spec v hsz]
-    exact Imports.specImport_okOrErr v _
-  obtain ⟨r, hr⟩ := this
-  rw [hr, Out.bind_ok]
-  exact ⟨_, rfl⟩
+    obtain ⟨l, hl⟩ := intItems_total v.b
+      ((Imports.thunkRefs v.fmt s).map (fun t => Imports.importFromVa v (Imports.thunkVal v t))) (by
+      intro it hit
+      obtain ⟨t, _, rfl⟩ := List.mem_map.1 hit
+      show OkOrErr (Imports.importFromVa v (Imports.thunkVal v t))
+      rw [Imports.import_eq_spec v hsz]
+      exact Imports.specImport_okOrErr v _)
+    simp only
+    rw [hl, Out.bind_ok, Out.bind_ok]
+    exact ⟨_, rfl⟩
 
 theorem importsJson_total (v : View) (hsz : v.img.bytes.size < 4294967296) : ∃ o, v.importsJson = .ok o := by
   have ht : OkOrErr (Imports.tryFrom v) := by rw [Imports.tryFrom_eq_spec]; exact Imports.specTryFrom_okOrErr v
   unfold View.importsJson
   rw [Out.okOpt_of_ok_or_err ht, Out.bind_ok]
-  exact exists_ok_of_opt _ _ (fun image _ => seqOut_total _ (fun d _ => serializeDesc_total v hsz d))
+  cases (Imports.tryFrom v).toOption with
+  | none => exact ⟨_, rfl⟩
+  | some image =>
+    obtain ⟨l, hl⟩ := seqOut_total (f := serializeDesc v) (Imports.descs image) (fun d _ => serializeDesc_total v hsz d)
+    simp only
+    rw [hl, Out.bind_ok]
+    exact ⟨_, rfl⟩
 
 /-! ### base relocations: every view -/
 
@@ -587,9 +588,9 @@ theorem serializeRich_total (image : List Nat) (hw : ∀ w ∈ image, w < 429496
     cases hg : image[15]? with
     | none => decide
     | some x => exact hw x (List.mem_of_getElem? hg)
-  have hal : (Spec.areaOf image).length ≤ image.getD 15 0 / 4 := by
-    unfold Spec.areaOf; rw [List.length_take]; omega
-  generalize hA : Spec.areaOf image = area at *
+  have hal : (Rich.Spec.areaOf image).length ≤ image.getD 15 0 / 4 := by
+    unfold Rich.Spec.areaOf; rw [List.length_take]; omega
+  generalize hA : Rich.Spec.areaOf image = area at *
   generalize hM : (area.take e).drop s = M at *
   generalize hD : area.take s = D at *
   have hx : Rich.RichS.xorKey ⟨D, M⟩ = .ok M[1] := Rich.idx_ok _ M 1 (by omega)
@@ -618,8 +619,13 @@ theorem richJson_total (v : View) (hb : v.img.base % 4 = 0) : ∃ o, v.richJson 
     · exact .inr ⟨_, hr⟩
     · exact .inr ⟨_, hr⟩
   rw [Out.okOpt_of_ok_or_err ht, Out.bind_ok]
-  exact exists_ok_of_opt _ _ (fun r hr =>
-    serializeRich_total _ (Rich.words_lt v.img.bytes) r (Out.toOption_eq_some.1 hr))
+  cases hr : (Rich.tryFrom (Rich.words v.img.bytes)).toOption with
+  | none => exact ⟨_, rfl⟩
+  | some r =>
+    obtain ⟨j, hj⟩ := serializeRich_total _ (Rich.words_lt v.img.bytes) r (Out.toOption_eq_some.1 hr)
+    simp only
+    rw [hj, Out.bind_ok]
+    exact ⟨_, rfl⟩
 
 /-! ### debug, tls, load config: every view -/
 
@@ -630,6 +636,7 @@ theorem entryJson_total (v : View) (e : Dirs.Entry) : ∃ j, entryJson v e = .ok
   | pgo image =>
     obtain ⟨l, hl, _⟩ := Dirs.pgoItems_safe v.b image
     unfold entryJson
+    simp only
     rw [hl, Out.bind_ok]
     exact ⟨_, rfl⟩
   | unknown data => exact ⟨_, rfl⟩
@@ -637,15 +644,26 @@ theorem entryJson_total (v : View) (e : Dirs.Entry) : ∃ j, entryJson v e = .ok
 theorem serializeDebugDir_total (v : View) (d : Nat) : ∃ j, serializeDebugDir v d = .ok j := by
   unfold serializeDebugDir
   rw [Out.okOpt_of_ok_or_err (Dirs.dirEntry_safe v d).1, Out.bind_ok]
-  obtain ⟨r, hr⟩ := exists_ok_of_opt (Dirs.dirEntry v d).toOption (entryJson v) (fun e _ => entryJson_total v e)
-  rw [hr, Out.bind_ok]
-  exact ⟨_, rfl⟩
+  cases (Dirs.dirEntry v d).toOption with
+  | none => exact ⟨_, rfl⟩
+  | some e =>
+    obtain ⟨j, hj⟩ := entryJson_total v e
+    simp only
+    rw [hj, Out.bind_ok, Out.bind_ok]
+    exact ⟨_, rfl⟩
 
 theorem debugJson_total (v : View) : ∃ o, v.debugJson = .ok o := by
   have ht : OkOrErr (Dirs.debugTryFrom v) := by rw [Dirs.debugTryFrom_eq]; exact (Dirs.tableTryFrom_safe v 6 28).1
   unfold View.debugJson
   rw [Out.okOpt_of_ok_or_err ht, Out.bind_ok]
-  exact exists_ok_of_opt _ _ (fun t _ => seqOut_total _ (fun i _ => serializeDebugDir_total v _))
+  cases (Dirs.debugTryFrom v).toOption with
+  | none => exact ⟨_, rfl⟩
+  | some t =>
+    obtain ⟨l, hl⟩ := seqOut_total (f := fun i => serializeDebugDir v (Dirs.debugEntryOff t i))
+      (List.range (Dirs.debugCount t)) (fun i _ => serializeDebugDir_total v _)
+    simp only
+    rw [hl, Out.bind_ok]
+    exact ⟨_, rfl⟩
 
 theorem tlsJson_total (v : View) : ∃ o, v.tlsJson = .ok o := by
   have ht : OkOrErr (Dirs.tlsTryFrom v) := by
@@ -655,7 +673,14 @@ theorem tlsJson_total (v : View) : ∃ o, v.tlsJson = .ok o := by
     | some p => exact (Dirs.derva_safe v _ _ _ (Dirs.isPow2_tls v.fmt)).1
   unfold View.tlsJson
   rw [Out.okOpt_of_ok_or_err ht, Out.bind_ok]
-  refine exists_ok_of_opt _ _ (fun t _ => ?_)
+  cases (Dirs.tlsTryFrom v).toOption with
+  | none => exact ⟨_, rfl⟩
+  | some t =>
+  suffices hj : ∃ j, serializeTls v t = .ok j by
+    obtain ⟨j, hj⟩ := hj
+    simp only
+    rw [hj, Out.bind_ok]
+    exact ⟨_, rfl⟩
   have hps : 1 ≤ v.fmt.ptrSize := by cases v.fmt <;> decide
   have hraw : OkOrErr (Dirs.tlsRawData v t) := by
     unfold Dirs.tlsRawData
@@ -675,7 +700,14 @@ theorem loadConfigJson_total (v : View) : ∃ o, v.loadConfigJson = .ok o := by
     | some p => exact (Dirs.derva_safe v _ _ _ (Dirs.isPow2_lc v.fmt)).1
   unfold View.loadConfigJson
   rw [Out.okOpt_of_ok_or_err ht, Out.bind_ok]
-  refine exists_ok_of_opt _ _ (fun t _ => ?_)
+  cases (Dirs.lcTryFrom v).toOption with
+  | none => exact ⟨_, rfl⟩
+  | some t =>
+  suffices hj : ∃ j, serializeLoadConfig v t = .ok j by
+    obtain ⟨j, hj⟩ := hj
+    simp only
+    rw [hj, Out.bind_ok]
+    exact ⟨_, rfl⟩
   have hck : OkOrErr (Dirs.lcSecurityCookie v t) := (Dirs.derva_safe v _ 4 4 Dirs.isPow2_4).1
   have htab : OkOrErr (Dirs.lcSeHandlerTable v t) := (Dirs.dervaSlice_safe v _ _ _ _ (Dirs.isPow2_ptr v.fmt)).1
   unfold serializeLoadConfig
@@ -687,7 +719,14 @@ theorem loadConfigJson_total (v : View) : ∃ o, v.loadConfigJson = .ok o := by
 theorem securityJson_total (v : View) (hb : v.img.base % 4 = 0) : ∃ o, v.securityJson = .ok o := by
   unfold View.securityJson
   rw [Out.okOpt_of_ok_or_err (Dirs.securityTryFrom_okOrErr v hb), Out.bind_ok]
-  refine exists_ok_of_opt _ _ (fun s hs => ?_)
+  cases hs : (Dirs.securityTryFrom v).toOption with
+  | none => exact ⟨_, rfl⟩
+  | some s =>
+  suffices hj : ∃ j, serializeSecurity v s = .ok j by
+    obtain ⟨j, hj⟩ := hj
+    simp only
+    rw [hj, Out.bind_ok]
+    exact ⟨_, rfl⟩
   obtain ⟨_, va, size, _, ⟨w1, w2, w3, w4, w5⟩, rfl⟩ :=
     (Dirs.securityTryFrom_ok_iff v hb s).1 (Out.toOption_eq_some.1 hs)
   have w5' : va + size ≤ v.img.bytes.size := w5
@@ -803,6 +842,74 @@ theorem serializePe_total (v : View) (hb : v.img.base % 4 = 0) (hsz : v.img.byte
   obtain ⟨_, h8⟩ := securityJson_total v hb
   obtain ⟨_, h9⟩ := resourcesJson_total v
   exact serializePe_of_fields h1 h2 h3 h4 h5 h6 h7 h8 h9
+
+/-! ### the one `from_utf8_unchecked` of the serializer: `CodeView::format` -/
+
+theorem rawRef_ok_eq {site : String} {img : Img} {off size align : Nat} {r : Ref}
+    (h : rawRef site img off size align = .ok r) : r = ⟨off, size, align⟩ := by
+  unfold rawRef at h
+  split at h
+  · cases h; rfl
+  · cases h
+
+/-- a decoded CodeView record starts with one of the two signatures -/
+theorem codeView_sig {v : View} {d : Nat} {cv : Dirs.CodeView} (h : Dirs.codeView v d = .ok cv) :
+    le32 v.b cv.image.off = Dirs.sigNB10 ∨ le32 v.b cv.image.off = Dirs.sigRSDS := by
+  unfold Dirs.codeView at h
+  cases hd : Dirs.dirData v d with
+  | none => rw [hd] at h; cases h
+  | some bytes =>
+    rw [hd] at h
+    simp only at h
+    split at h
+    · cases h
+    split at h
+    · cases h
+    obtain ⟨sig, hsig, h⟩ := Out.bind_eq_ok h
+    have hs := rawRef_ok_eq hsig
+    subst hs
+    simp only at h
+    split at h
+    · rename_i hnb
+      obtain ⟨image, himage, h⟩ := Out.bind_eq_ok h
+      obtain ⟨name, _, h⟩ := Out.bind_eq_ok h
+      cases h
+      rw [rawRef_ok_eq himage]
+      exact .inl hnb
+    · split at h
+      · rename_i hrs
+        split at h
+        · cases h
+        obtain ⟨image, himage, h⟩ := Out.bind_eq_ok h
+        obtain ⟨name, _, h⟩ := Out.bind_eq_ok h
+        cases h
+        rw [rawRef_ok_eq himage]
+        exact .inr hrs
+      · cases h
+
+theorem bytes_of_le32 (b : Bytes) (o : Nat) (b0 b1 b2 b3 : Nat) (h0 : b0 < 256) (h1 : b1 < 256) (h2 : b2 < 256)
+    (_h3 : b3 < 256) (h : le32 b o = b0 + 256 * b1 + 65536 * b2 + 16777216 * b3) :
+    bytesOf b ⟨o, 4, 1⟩ = [b0, b1, b2, b3] := by
+  have g0 := byteAt_lt b o
+  have g1 := byteAt_lt b (o + 1)
+  have g2 := byteAt_lt b (o + 2)
+  have g3 := byteAt_lt b (o + 3)
+  unfold le32 at h
+  have e0 : byteAt b o = b0 := by omega
+  have e1 : byteAt b (o + 1) = b1 := by omega
+  have e2 : byteAt b (o + 2) = b2 := by omega
+  have e3 : byteAt b (o + 3) = b3 := by omega
+  show (List.range 4).map (fun i => byteAt b (o + i)) = _
+  rw [show List.range 4 = [0, 1, 2, 3] by decide]
+  simp only [List.map_cons, List.map_nil, Nat.add_zero]
+  rw [e0, e1, e2, e3]
+
+/-- "format" of a serialized CodeView entry is the ASCII text `NB10` or `RSDS` -/
+theorem codeView_format_ascii {v : View} {d : Nat} {cv : Dirs.CodeView} (h : Dirs.codeView v d = .ok cv) :
+    bytesOf v.b ⟨cv.image.off, 4, 1⟩ = [78, 66, 49, 48] ∨ bytesOf v.b ⟨cv.image.off, 4, 1⟩ = [82, 83, 68, 83] := by
+  rcases codeView_sig h with hs | hs
+  · exact .inl (bytes_of_le32 _ _ 78 66 49 48 (by decide) (by decide) (by decide) (by decide) (by rw [hs]; rfl))
+  · exact .inr (bytes_of_le32 _ _ 82 83 68 83 (by decide) (by decide) (by decide) (by decide) (by rw [hs]; rfl))
 
 end Pe
 end Pelite
